@@ -966,6 +966,16 @@ class Engine:
             if la is None or lb is None:
                 return setv(B(("o", vid)))
             bits = i["ops"][0].get("bits") or i["ops"][1].get("bits") or 64
+            if pred in ("eq", "ne") and int(bits) < 64 and (la.is_const() and la.c < 0) != (lb.is_const() and lb.c < 0):
+                # `x == -1` on a narrow integer: the value model is the mathematical integers, and a 32-bit quantity is carried either as
+                # the signed value (an int result: -1) or as the unsigned one (a uint32_t: 0xFFFFFFFF) depending on where it came from --
+                # the comparison holds for both readings, so it is the disjunction (conjunction for `!=`) of the two
+                if la.is_const():
+                    la, lb = lb, la
+                alt = Lin.const(lb.c + (1 << int(bits)))
+                if pred == "eq":
+                    return setv(B(("or", ("cmp", "eq", la, lb), ("cmp", "eq", la, alt))))
+                return setv(B(("and", ("cmp", "ne", la, lb), ("cmp", "ne", la, alt))))
             if pred in ("eq", "ne") or pred.startswith("u"):
                 if la.is_const() and la.c < 0:
                     la = Lin.const(la.c + (1 << int(_bits_of(i, 0))))
